@@ -10,8 +10,8 @@ CLAIMS = {
     note="Trusted: rustc MIR; flow-insensitive slices; anchors by (type, method). Not decided: codec inverses, boundary sizes, >4 GiB casts.",
     technique="MIR backward slicing (provenance of the block index), table extraction from SwitchInt/discriminants, sibling agreement", ref="§3 C01"),
  "C02": dict(
-    text="Decides, over the call-graph closure of every byte-parser entry (role discovery, 240+ entries, 800+ bodies): no explicit panic API is reachable (R1); no allocation size derives from an input integer wider than 16 bits without a bound, binrw-argument sizes being decided at the parser callers (R2); every slice / array / Vec index, range index, split_at and copy_from_slice is PROVEN in bounds by a relational abstract interpretation (E-bounds: linear facts over immutable value atoms, helper preconditions checked at call sites, validator postconditions) or, when unproven and its index or length derives from parser input, reported unless discharged by key with the missing arithmetic written down and its premise re-checked (R3); no u8/u16/u32 addition or multiplication on input-derived operands can exceed its type (R4). Unproven sites that do not derive from input, wide-integer overflow, subtraction underflow and loop termination are NOT decided and are counted in the evidence.",
-    note="Trusted: dependency-aware over-approximate dispatch; per-(struct,field)/per-local taint; E-bounds models integers as mathematical values and containers by (local, version) with conservative invalidation; helper preconditions are checked at in-closure call sites only. 3 R3 sites, 1 R2 site and 2 R1 sites are discharged by exact key with a written reason.",
+    text="Decides, over the call-graph closure of every byte-parser entry (role discovery, 240+ entries, 800+ bodies): no explicit panic API is reachable (R1); no allocation size derives from an input integer wider than 16 bits without a bound, binrw-argument sizes being decided at the parser callers (R2); every slice / array / Vec index, range index, split_at and copy_from_slice is PROVEN in bounds by a relational abstract interpretation (E-bounds: linear facts over immutable value atoms, helper preconditions checked at call sites, validator postconditions) or, when unproven and its index or length derives from parser input, reported unless discharged by key with the missing arithmetic written down and its premise re-checked (R3); no u8/u16/u32 addition, multiplication or subtraction on input-derived operands (and no u64 multiplication of a number parsed from text) can leave its type (R4); every recursive call-graph cycle in the closure carries a depth counter compared with a limit (R5). Unproven sites that do not derive from input, wide-integer overflow, subtraction underflow and loop termination are NOT decided and are counted in the evidence.",
+    note="Trusted: dependency-aware over-approximate dispatch; per-(struct,field)/per-local taint; E-bounds models integers as mathematical values and containers by (local, version) with conservative invalidation; helper preconditions are checked at in-closure call sites only. 25 R3 sites in 6 functions (non-linear bounds), 1 R2 site and 2 R1 sites are discharged by exact key with a written reason; one discharge re-checks its premise on every run.",
     technique="call-graph reachability (E-reach) + interprocedural taint slicing with sanitizer idioms (E-slice) + relational abstract interpretation of index bounds over MIR (E-bounds, rules/bounds.py)", ref="§3 C02"),
  "C03": dict(
     text="Decides two sibling-agreement clauses only: the root header-layout predicate of the version detector equals the reader's (comparison atoms on the first two u32 values), and every archive-index page-to-entry mapping uses the footer-derived records-per-page. Lookup correctness itself is value-level and not decided. Also: the k-way archive-group merge advances the popped source on every iteration path; every FileDataId delta decoder reachable from the root block parsers yields one id per delta.",
